@@ -17,7 +17,7 @@ type Prop struct {
 	Shards      func(tier string) int
 	Bounds      func(tier string) map[string]any
 	Run         func(w *core.W)
-	Replay      func(w *core.W, v *core.Violation) // re-executes exactly the witness of v, calling w.Violate again if it still fails
+	Replay      func(w *core.W, v *core.Violation)            // re-executes exactly the witness of v, calling w.Violate again if it still fails
 	OnAbort     func(desc []byte, how string) *core.Violation // worker died / hung in the marked case; nil = not a violation of this property
 	Assumptions []string
 }
